@@ -54,7 +54,7 @@ def compose (t : Tree) (content : Id → Int → Int → Cell) (l c : Int) : Opt
     the translation, i.e. to the window's top-left corner). -/
 def Repaints (content : Id → Int → Int → Cell) (beh : Id → Rect → List DrawOp) : Prop :=
   ∀ (w : Id) (rect : Rect) (rb : RB) (L C : Int), rb.writable L C = true → rect.memb (L - rb.xl) (C - rb.xc) = true →
-    (rb.run (beh w rect)).cells L C = some (content w (L - rb.xl) (C - rb.xc))
+    (rb.run (beh w rect)).cells L C = some (.plain (content w (L - rb.xl) (C - rb.xc)))
 
 end WinSpec
 end Tickit
